@@ -134,12 +134,12 @@ func oddInputs(r *common.Rng) []*input {
 	m.Seqs = []seq{{Name: "S", Calls: [][2]string{{m.Apps[0].Name, m.Apps[0].Eps[0].Name}}}}
 	out = append(out, inputOf(m))
 	// 2. project and sequence apps missing (generators report an error or crash: that too must repeat)
-	m2 := genModel(r.Fork(), 1)
+	m2 := genModel(r.Fork(), 0)
 	in2 := inputOf(m2)
 	in2.Project, in2.SeqProj = "NoSuchProject", "NoSuchSeq"
 	out = append(out, in2)
 	// 3. calls to applications and endpoints that do not exist; references to types that do not exist
-	m3 := genModel(r.Fork(), 1)
+	m3 := genModel(r.Fork(), 0)
 	for i := range m3.Apps {
 		for j := range m3.Apps[i].Eps {
 			m3.Apps[i].Eps[j].Calls = append(m3.Apps[i].Eps[j].Calls, [2]string{"Ghost", "Nowhere"})
@@ -162,7 +162,7 @@ func oddInputs(r *common.Rng) []*input {
 	// 5. not Sysl at all
 	out = append(out, &input{Text: "this is : not [ sysl\n\t<- ???\n", Project: "Proj", SeqProj: "Seqs", Apps: []string{"Proj", "Seqs"}})
 	// 6. many attribute values needing escapes in every position an attribute can take
-	m6 := genModel(r.Fork(), 1)
+	m6 := genModel(r.Fork(), 0)
 	for i := range m6.Apps {
 		m6.Apps[i].Attrs = append(m6.Apps[i].Attrs, kv{"note", `quote " and \\ and : and #`}, kv{"x-multi", "a\\nb"})
 	}
@@ -371,6 +371,9 @@ func (r *runner) repoModels(reps int) {
 	sort.Strings(fs)
 	var gens []*generator
 	for i := range generators {
+		if generators[i].name == "relmod" && !r.c.Thorough() {
+			continue // arr.ai payload parser: thorough tier only on the repository's models
+		}
 		if projectFree[generators[i].name] {
 			gens = append(gens, &generators[i])
 		}
@@ -381,7 +384,7 @@ func (r *runner) repoModels(reps int) {
 		if err != nil || len(b) > 20000 || strings.Contains(string(b), "\nimport ") || strings.HasPrefix(string(b), "import ") {
 			continue
 		}
-		if !r.c.Thorough() && (len(b) < 1500 || n >= 6) {
+		if !r.c.Thorough() && (len(b) < 1500 || n >= 4) {
 			continue
 		}
 		n++
@@ -491,10 +494,16 @@ func (r *runner) cliOne(bin, name string, in *input, reps int) {
 	}
 }
 
-func (r *runner) cli(bin string, m *model, reps int) {
+// quick tier: one command per command family (every run is a process start + parse of the model)
+var cliQuick = map[string]bool{"cli:pb-json": true, "cli:sd-groupby": true, "cli:ints-clustered": true,
+	"cli:export-openapi3": true, "cli:pb-binary": true, "cli:datamodel": true}
+
+func (r *runner) cli(bin string, m *model, reps int, all bool) {
 	in := inputOf(m)
 	for i := range cliCmds {
-		r.cliOne(bin, cliCmds[i].name, in, reps)
+		if all || cliQuick[cliCmds[i].name] {
+			r.cliOne(bin, cliCmds[i].name, in, reps)
+		}
 	}
 	r.c.Hist("stream:cli-model")
 }
